@@ -9,7 +9,8 @@ from . import campaign as C
 from .gen import Gen
 from .qp import INF, Spec
 
-CORPUS = "/verif/corpus"
+from .common import VERIF
+CORPUS = os.path.join(VERIF, "corpus")
 
 
 def load_corpus(prop):
